@@ -2813,6 +2813,10 @@ namespace bloch::compiler {
                 throw BlochError(ErrorCategory::Semantic, p->line, p->column,
                                  "'" + p->name + "' is already declared in this scope");
             }
+            if (pt.value == ValueType::Void) {
+                throw BlochError(ErrorCategory::Semantic, p->line, p->column,
+                                 "parameters cannot have type 'void'");
+            }
             declare(p->name, false, pt);
             p->accept(*this);
         }
@@ -2862,6 +2866,10 @@ namespace bloch::compiler {
             if (isDeclared(p->name)) {
                 throw BlochError(ErrorCategory::Semantic, p->line, p->column,
                                  "'" + p->name + "' is already declared in this scope");
+            }
+            if (pt.value == ValueType::Void) {
+                throw BlochError(ErrorCategory::Semantic, p->line, p->column,
+                                 "parameters cannot have type 'void'");
             }
             declare(p->name, false, pt);
             p->accept(*this);
